@@ -455,6 +455,14 @@ def c08_idle(spec, obs, sc=0, cal=None):
             b = sidx(bound)
             first = b if slot_start(obs, b) == bound else b + 1
             last = slots[-1]
+            # sub-slot clause: a task that first finds work in a slot after the bound's slot, and has that slot
+            # to itself, starts at the beginning of that slot (the bound's intra-slot offset does not carry over)
+            s1 = slots[0]
+            if s1 > b and rec["start"][sc] is not None:
+                alone = all(len(led.get(short2full[r], {}).get(s1, [])) <= 1 for r in alloc)
+                if alone and rec["start"][sc] > slot_start(obs, s1) + timedelta(seconds=1):
+                    v.append(("late-start", f"{fid}: bound {bound}, first work in slot {slot_start(obs, s1)} which it has to itself, "
+                                            f"but it starts only at {rec['start'][sc]}"))
             if last - first >= 2:
                 spans += 1
             for s in range(first, last):
